@@ -22,8 +22,8 @@ from vf import core
 
 PROP = "C17"
 NEEDS_PARSER = True
-FLOOR = 0.6
-RULE = ("Hypothesis-generated visibility configurations: viewer kind x pose x view angles x "
+FLOOR = 0.65
+RULE = ("Visibility configurations expanded from Hypothesis-drawn seeds: viewer kind x pose x view angles x "
         "visibleDistance x ray parameters, 2-4 targets placed in the viewer's own spherical "
         "coordinates (inside / at the edge of / outside the window, behind, above, far, near, "
         "huge), 0-4 occluders constructed relative to a line of sight (covering, partial, beside, "
@@ -48,9 +48,6 @@ MAX_RAYS_PROG = 3000
 REGION_ANG = 0.02
 REGION_REL = 0.02
 D20 = math.radians(20)
-
-SHAPES = ["box", "spheroid", "cylinder", "cone", "ring"]
-
 
 # ---------------------------------------------------------------------------------------------
 # case -> world description (pure function of the case; numpy only)
@@ -1027,7 +1024,7 @@ def run_shard(shard, tier):
         if any(fnmatch.fnmatchcase(sig, k) for k in known):
             continue
         first = col.failures[sig]["examples"][0]["case"]
-        small, detail = minimise(first, sig, budget_s=20 if tier == "quick" else 60)
+        small, detail = minimise(first, sig, budget_s=12 if tier == "quick" else 60)
         if small is not None:
             col.add_shrunk(sig, small, detail)
     return col.result()
